@@ -207,6 +207,11 @@ func (e *Engine) analyseWriteSets() {
 						if fd.idx != in.Field || !types.Identical(pt, fd.named) {
 							continue
 						}
+						// fields of an object allocated in this very function: initialisation of a new
+						// object, not a write to any object that existed before
+						if a := rootAlloc(in.X); a != nil && a.Parent() == fn {
+							continue
+						}
 						if fd.Pointee {
 							if w := e.pointeeWrite(in); w != "" {
 								fd.Found[key] = append(fd.Found[key], w)
@@ -227,8 +232,8 @@ func (e *Engine) analyseWriteSets() {
 							continue
 						}
 						if containsNamed(in.Val.Type(), fd.named, 0) {
-							if a := rootAlloc(in.Addr); a != nil && !a.Heap && a.Parent() == fn {
-								// store into a non-escaping local copy
+							if a := rootAlloc(in.Addr); a != nil && a.Parent() == fn {
+								// store into a local copy / initialisation of a newly allocated object
 								continue
 							}
 							fd.Found[key] = append(fd.Found[key], e.Fset.Position(in.Pos()).String())
